@@ -158,6 +158,7 @@ def run_case(case):
                                       f'submission #{si} statuses {statuses}: committed-visible state changed'))
                         break
                     if stop_after:
+                        out['skip_drive'] = True
                         break
                     continue
                 # accepted: structural validity of the committed batch
@@ -189,7 +190,7 @@ WHERE job_parents.batch_id = %s AND cu.committed AND NOT pu.committed''', (bid,)
                 # the parent exists but its own update was never committed by the client: whether the batch can finish then
                 # depends on that other submission, which the statement does not settle -> not judged
                 classes.add('depends_on_uncommitted_update')
-            if not fails and bid is not None and not dep_uncommitted:
+            if not fails and bid is not None and not dep_uncommitted and not out.get('skip_drive'):
                 await drive(w)
                 rows = w.q('''SELECT jobs.job_id, jobs.state FROM jobs INNER JOIN batch_updates ON batch_updates.batch_id = jobs.batch_id AND
 batch_updates.update_id = jobs.update_id WHERE jobs.batch_id = %s AND batch_updates.committed''', (bid,))
